@@ -69,11 +69,16 @@ Theorem C01_channel_close_puts_all_back :
 Proof. exact channel_close_returns. Qed.
 Print Assumptions C01_channel_close_puts_all_back.
 
-(* (7) basic.cancel loses nothing: no waiting message and no unsettled delivery of any channel changes. *)
+(* (7) basic.cancel loses nothing: no waiting message changes, and the unsettled deliveries of every channel stay as
+   they are - same delivery tags, messages and origin queues, in the same order; the only change is that the cancelled
+   consumer's deliveries no longer name its tag (`orphan`), which a later consumer may use again. *)
 Theorem C01_cancel_keeps_messages :
   forall cfg fx s c h tag nowait,
     let s' := fst (fst (handle_method cfg fx s c h (MCancel tag nowait))) in
-    (forall q, R s' q = R s q) /\ (forall c' h', U s' c' h' = U s c' h').
+    (forall q, R s' q = R s q) /\
+    (forall c' h', U s' c' h' = U s c' h' \/ U s' c' h' = map (orphan tag) (U s c' h')) /\
+    (forall c' h', map u_tag (U s' c' h') = map u_tag (U s c' h') /\ map u_msg (U s' c' h') = map u_msg (U s c' h') /\
+                   map u_qid (U s' c' h') = map u_qid (U s c' h') /\ map u_queue (U s' c' h') = map u_queue (U s c' h')).
 Proof. exact cancel_keeps_messages. Qed.
 Print Assumptions C01_cancel_keeps_messages.
 
